@@ -90,3 +90,29 @@ class Coverage:
                 "executable_lines": len(ex), "executed": len(hit),
                 "unexecuted_sample": missed[:25]}
         return rep
+
+
+def changed_lines(prop, repo):
+    """{anchored file: set of line numbers (in the CURRENT file) that differ from the
+    aligned/ snapshot}; empty when the tree is the one the models were aligned with"""
+    import difflib
+    verif = os.path.dirname(os.path.dirname(os.path.abspath(__file__)))
+    out = {}
+    for f in anchor_files(prop, repo):
+        rel = os.path.relpath(f, os.path.realpath(repo))
+        snap = os.path.join(verif, "aligned", rel)
+        try:
+            a = open(snap).read().splitlines()
+            b = open(f).read().splitlines()
+        except OSError:
+            continue
+        if a == b:
+            continue
+        lines = set()
+        for tag, i1, i2, j1, j2 in difflib.SequenceMatcher(None, a, b, autojunk=False).get_opcodes():
+            if tag in ("replace", "insert"):
+                lines.update(range(j1 + 1, j2 + 1))
+            elif tag == "delete":
+                lines.add(min(j1 + 1, len(b)))       # the line after a deletion
+        out[f] = lines
+    return out
